@@ -5,6 +5,11 @@ with at least one exponent bit)."""
 import itertools
 
 PO2_CAPS = [None, -2, -1, 0, 1, 2, 4]      # max_val_po2 = -1 or 2**c
+# max_value settings that are not powers of two: frac(log2) >= .5 (rounds up:
+# 1.5 -> 2, 3 -> 4, 6 -> 8, 12 -> 16) and < .5 (5 -> 4); all far from the .5
+# boundary so float32 log2 rounding in the quantizer cannot flip
+PO2_MVS = [1.5, 3, 5, 6, 12]
+_MV_EXP = {1.5: 1, 3: 2, 5: 2, 6: 3, 12: 4}     # round(log2 v)
 
 
 def _po2_ok(bits, signed, c):
@@ -24,13 +29,22 @@ def fixed_types(bits_list, ints=None):
   return out
 
 
-def po2_types(bits_list, caps=None):
+def _mv_ok(bits, signed, v):
+  """the cap lies inside the exponent range of the width (else it is inert)"""
+  n = bits - signed
+  return n >= 1 and _MV_EXP[v] <= (1 << (n - 1)) - 1
+
+
+def po2_types(bits_list, caps=None, mvs=()):
   out = []
   for b in bits_list:
     for s in (1, 0):
       for c in (PO2_CAPS if caps is None else caps):
         if _po2_ok(b, s, c):
           out.append({"k": "po2", "bits": b, "signed": s, "max": c})
+      for v in mvs:
+        if _mv_ok(b, s, v):
+          out.append({"k": "po2", "bits": b, "signed": s, "max": None, "mv": v})
   return out
 
 
@@ -73,7 +87,7 @@ def with_via(d, n):
 
 def small_lattice():
   """Every type with bits <= 5 (the finite part that is brute-forced)."""
-  return (fixed_types(range(1, 6)) + po2_types(range(1, 6)) + small_kinds() +
+  return (fixed_types(range(1, 6)) + po2_types(range(1, 6), mvs=PO2_MVS) + small_kinds() +
           named_factory_types((2, 4)))
 
 
@@ -89,7 +103,7 @@ def wide_lattice(tier):
     ints = None
     pb = [6, 7, 8]
     caps = None
-  return (fixed_types(fb, ints) + po2_types(pb, caps) +
+  return (fixed_types(fb, ints) + po2_types(pb, caps, mvs=[3, 5, 12] if tier == "quick" else PO2_MVS) +
           named_factory_types((8, 16) if tier == "quick" else (6, 8, 12, 16)))
 
 
@@ -97,10 +111,10 @@ def small_sample(tier):
   """Representative small types to pair with the wide ones."""
   if tier == "quick":
     fx = fixed_types([1, 3, 5], lambda b: [0, b // 2, b])
-    po = po2_types([2, 4, 5], [None, -1, 1])
+    po = po2_types([2, 4, 5], [None, -1, 1], mvs=[1.5, 3, 6])
   else:
     fx = fixed_types([1, 2, 3, 4, 5])
-    po = po2_types([1, 2, 3, 4, 5])
+    po = po2_types([1, 2, 3, 4, 5], mvs=PO2_MVS)
   return fx + po + small_kinds() + named_factory_types((3,))
 
 
@@ -115,7 +129,7 @@ def pair_index(pairs):
 # Hypothesis strategies
 
 
-def type_strategy(st, max_bits=16, allow_float=True):
+def type_strategy(st, max_bits=16, allow_float=True, nonpo2_caps=False):
   via = st.sampled_from(["impl", "factory"])
 
   @st.composite
@@ -131,6 +145,10 @@ def type_strategy(st, max_bits=16, allow_float=True):
     b = draw(st.integers(1 + s, min(8, max_bits)))
     n = b - s
     lo = -(1 << (n - 1))
+    mvs = [v for v in PO2_MVS if _mv_ok(b, s, v)] if nonpo2_caps else []
+    if mvs and draw(st.integers(0, 2)) == 0:
+      return {"k": "po2", "bits": b, "signed": s, "max": None,
+              "mv": draw(st.sampled_from(mvs)), "via": draw(via)}
     c = draw(st.one_of(st.none(), st.integers(max(lo, -6), 8)))
     return {"k": "po2", "bits": b, "signed": s, "max": c, "via": draw(via)}
 
